@@ -159,6 +159,46 @@ func TestVerifBounded_C18_Tables(t *testing.T) {
 			}
 		}
 	}
+	// the sentinel scores (Phred 254 / Solexa 127 for p == 0, Phred 255 / Solexa -128 for NaN) convert into
+	// each other, so a conversion never changes the error probability it stands for
+	for _, qs := range []Qsolexa{127, -128} {
+		cases++
+		nontrivial++
+		a, b := qs.ProbE(), qs.Qphred().ProbE()
+		if !(a == b || (math.IsNaN(a) && math.IsNaN(b))) {
+			t.Fatalf("Qsolexa(%d).ProbE() = %g but Qsolexa(%d).Qphred() = %d with ProbE %g", qs, a, qs, qs.Qphred(), b)
+		}
+	}
+	for _, qp := range []Qphred{254, 255} {
+		cases++
+		nontrivial++
+		a, b := qp.ProbE(), qp.Qsolexa().ProbE()
+		if !(a == b || (math.IsNaN(a) && math.IsNaN(b))) {
+			t.Fatalf("Qphred(%d).ProbE() = %g but Qphred(%d).Qsolexa() = %d with ProbE %g", qp, a, qp, qp.Qsolexa(), b)
+		}
+	}
+	// probability -> score over a grid of probabilities in [0,1] including the extremes: a smaller probability
+	// never gets a smaller score, and the score's own probability is the nearest on the score scale
+	{
+		grid := []float64{0, math.SmallestNonzeroFloat64, 1e-300, 1e-100, 1e-30, 1e-20, 1e-14, 1e-13, 1.7e-13, 1.8e-13, 2e-13, 1e-12}
+		for e := -11.9; e < 0; e += 0.013 {
+			grid = append(grid, math.Pow(10, e))
+		}
+		grid = append(grid, 0.999, 1-1e-9, 1-1e-13, math.Nextafter(1, 0), 1)
+		for i, p := range grid {
+			cases++
+			nontrivial++
+			if i > 0 && !(grid[i-1] < p) {
+				t.Fatalf("grid not increasing at %d", i)
+			}
+			if i > 0 && Ephred(grid[i-1]) < Ephred(p) {
+				t.Fatalf("Ephred(%g) = %d < Ephred(%g) = %d", grid[i-1], Ephred(grid[i-1]), p, Ephred(p))
+			}
+			if i > 0 && Esolexa(grid[i-1]) < Esolexa(p) {
+				t.Fatalf("Esolexa(%g) = %d < Esolexa(%g) = %d", grid[i-1], Esolexa(grid[i-1]), p, Esolexa(p))
+			}
+		}
+	}
 	// mutually inverse from Q=10 upwards (where both are representable)
 	for q := 10; q <= 126; q++ {
 		cases++
